@@ -4,4 +4,4 @@ Require Import ExtrOcamlBasic.
 From Verif Require Import Bft.Tree Bft.Model.
 Extraction Language OCaml.
 Extraction "../oracle/c04/model.ml"
-  mkB mkCfg init_node run tally_votes summarize conflict has_block.
+  mkB mkCfg init_node run run_f tally_votes summarize conflict has_block.
